@@ -67,6 +67,31 @@ def scripted_history():
     return specs, evos
 
 
+def signature_only_history():
+    """V0 -e1-> a rename that keeps the column (no SQL at all) -e2-> a change of the renamed field -e3-> an
+    unrelated new column: a version step may consist of signature changes only"""
+    def fld(name, t, **attrs):
+        return {'name': name, 'type': t, 'attrs': attrs, 'related': None}
+
+    def mdl(name, fields):
+        return {'name': name, 'table': 'vapp_%s' % name.lower(), 'unique_together': [], 'index_together': [],
+                'indexes': [], 'constraints': [], 'fields': [fld('id', 'AutoField', primary_key=True)] + fields}
+    spec0 = {'apps': [{'id': 'vapp', 'models': [mdl('Item', [fld('qty', 'IntegerField'), fld('name', 'CharField', max_length=10)])]}]}
+    evos = [[{'t': 'RenameField', 'model': 'Item', 'old': 'qty', 'new': 'quantity', 'db_column': 'qty', 'db_table': None}],
+            [{'t': 'ChangeField', 'model': 'Item', 'field': 'quantity', 'ftype': None, 'initial': None,
+              'attrs': [['null', 'true']]}],
+            [{'t': 'AddField', 'model': 'Item', 'field': 'note', 'ftype': 'CharField', 'initial': None,
+              'attrs': [['max_length', '20'], ['null', 'true']]}]]
+    sig = dbrig.sig_from_models(dbrig.build_models(spec0))
+    specs = [spec0]
+    for e in evos:
+        sig = sigs.real_simulate(sig, 'vapp', [sigs.real_mutation(m) for m in e])[1]
+        sp = dbrig.spec_from_sig(sig)
+        sp['apps'] = [a for a in sp['apps'] if a['id'] == 'vapp']
+        specs.append(sp)
+    return specs, evos
+
+
 def two_app_history():
     """two apps whose evolutions carry the same labels (labels are only unique within an app's SEQUENCE) and
     become pending in different versions: V1 ships vapp's `add_fields`, V2 ships wapp's `add_fields`, V3 ships
@@ -190,6 +215,9 @@ def run(ctx):
         elif tries == 2:
             h = two_app_history()
             n = 3
+        elif tries == 3:
+            h = signature_only_history()
+            n = 3
         else:
             h = gen_history(ctx.rng, n)
         if h is None:
@@ -268,7 +296,11 @@ def run(ctx):
                 if st['labels'] != fresh['labels']:
                     missing = [l for l in fresh['labels'] if l not in st['labels']]
                     # evolutions whose net effect on the models is empty (V_{k-1} and V_k are the same models)
-                    empty = ['e%d' % k for k in range(1, n + 1) if specs[k - 1] == specs[k]]
+                    # labels of runs whose pending evolutions have, together, no net effect on the models
+                    # (V_from and V_to are the same models): one run per version when stepwise, one run i -> n
+                    # when direct
+                    runs = [(v - 1, v) for v in range(i + 1, n + 1)] if path == 'stepwise' else [(i, n)]
+                    empty = ['e%d' % k for a, b in runs if specs[a] == specs[b] for k in range(a + 1, b + 1)]
                     what = ('recorded labels after upgrading from V%d (%s, %s) are %r, fresh install has %r'
                             % (i, path, how, st['labels'], fresh['labels']))
                     if how in ('evolve', 'migrate') and missing and set(missing) <= set(empty) and \
